@@ -28,17 +28,31 @@ def _with(pairs, **changes):
     return runner.params_to_text(list(d.items()))
 
 
+KEEP = {'Reservoir Model', 'End-Use Option', 'Power Plant Type', 'Economic Model', 'Print Output to Console',
+        'Reservoir Volume Option', 'Number of Segments'}
+
+
 def content_pool(ctx, n):
-    """Input texts from every end-use/plant/economic-model family (fast reservoir models) + requests that fail at
-    three different depths of a run (reader, Calculate, sys.exit).  All are `name, value` lines with unique names."""
+    """Input texts from every end-use/plant/economic-model family (fast reservoir models), SPARSE variants of them
+    that omit a random subset of the optional parameters (so that a run relying on defaults follows, in the same
+    process, runs that overrode those parameters - shared mutable defaults show up as a result that differs from
+    the fresh-process reference), + requests that fail at three different depths of a run (reader, Calculate,
+    sys.exit).  All are `name, value` lines with unique names."""
     rnd = ctx.rng
-    texts = [_with(BASE), _with(BASE, Gradient_1='55')]
+    full = [BASE, list(dict(BASE, **{'Gradient 1': '70', 'Reservoir Depth': '2.5'}).items())]
     for i in range(n):
         eu, pl, ec = CELLS[i % len(CELLS)]
         p = configs.synthetic(rnd, enduse=eu, plant=pl, econ=ec, resmodel=rnd.choice([3, 4]),
                               life=rnd.choice([5, 10, 20, 30]), addons=False)
         if len(dict(p)) == len(p):
-            texts.append(runner.params_to_text(p))
+            full.append(p)
+    sparse = [[kv for kv in BASE if kv[0] != 'Gradient 1'], [kv for kv in BASE if kv[0] != 'Reservoir Depth'],
+              [kv for kv in BASE if kv[0] in KEEP]]
+    for i in range(max(4, (2 * n) // 3)):
+        src = full[2 + i % max(1, len(full) - 2)] if len(full) > 2 else BASE
+        frac = rnd.choice([0.25, 0.5, 0.8])
+        sparse.append([kv for kv in src if kv[0] in KEEP or rnd.random() > frac])
+    texts = [runner.params_to_text(p) for p in full + sparse]
     failing = [_with(BASE, **{'End-Use Option': '9'}),        # rejected by the reader
                _with(BASE, Reservoir_Depth='0.1'),            # raises inside Calculate
                _with(BASE, Reservoir_Model='5')]              # sys.exit() (missing reservoir output file)
